@@ -520,6 +520,61 @@ theorem predict_runs (s : St) (op : Op) (hi : C02.Inv s) (pre : Pre s op) : ∃ 
     rw [runD_append s s1 _ _ 0 hr1]
     exact ⟨s2, runD_shift _ _ _ _ _ hr2⟩
 
+/-! ### names after a call (C15: "stores one media part ... different bytes get different parts with different names") -/
+
+def addedNames : List Delta → List Str
+  | [] => []
+  | .addPart _ n :: rest => n :: addedNames rest
+  | _ :: rest => addedNames rest
+
+def onlyAdds : List Delta → Bool
+  | [] => true
+  | .addPart .. :: rest => onlyAdds rest
+  | .addRel .. :: rest => onlyAdds rest
+  | .addRef .. :: rest => onlyAdds rest
+  | _ :: _ => false
+
+theorem names_runD (s s' : St) (ds : List Delta) (k : Nat) (ho : onlyAdds ds = true) (h : runD s ds k = .ok s') :
+    names s' = names s ++ addedNames ds := by
+  induction ds generalizing s k with
+  | nil => simp only [runD] at h; cases h; simp [addedNames]
+  | cons d ds ih =>
+    simp only [runD] at h
+    split at h
+    · cases d with
+      | addPart i n => rw [ih _ _ (by simpa [onlyAdds] using ho) h, names_addPart]; simp [addedNames]
+      | addRel i r t => rw [ih _ _ (by simpa [onlyAdds] using ho) h, names_addRel]; simp [addedNames]
+      | addRef i r => rw [ih _ _ (by simpa [onlyAdds] using ho) h, names_addRef]; simp [addedNames]
+      | rename l => simp [onlyAdds] at ho
+      | retarget i r t => simp [onlyAdds] at ho
+      | dropRef i r => simp [onlyAdds] at ho
+      | dropRel i r => simp [onlyAdds] at ho
+      | dropParts is => simp [onlyAdds] at ho
+    · cases h
+
+/-- **a picture whose bytes a part already holds adds no part; other bytes add exactly one part, under a name no part had** -/
+theorem picture_names (s s' : St) (slide : Nat) (existing : Option Nat) (new : Nat) (ext : Str)
+    (he : '/' ∉ ext) (hd : '.' ∉ ext) (h : step s (.addPicture slide existing new ext) = some s') :
+    (existing ≠ none → names s' = names s) ∧
+    (existing = none → names s' = names s ++ [imageName s ext] ∧ imageName s ext ∉ names s) := by
+  unfold step at h
+  split at h
+  · rename_i s'' hr
+    cases h
+    constructor
+    · intro hex
+      cases existing with
+      | none => exact absurd rfl hex
+      | some img =>
+        simp only [predict, predictPic] at hr
+        cases hm : matching s slide img with
+        | some k => simp only [hm] at hr; simpa [addedNames] using names_runD s s' _ 0 (by simp [onlyAdds]) hr
+        | none => simp only [hm] at hr; simpa [addedNames] using names_runD s s' _ 0 (by simp [onlyAdds]) hr
+    · intro hex; subst hex
+      simp only [predict, predictPic] at hr
+      exact ⟨by simpa [addedNames] using names_runD s s' _ 0 (by simp [onlyAdds]) hr, imageName_fresh s ext he hd⟩
+  · cases h
+
 /-- the one precondition of `addNotes` that is not discharged from the code: `create_default` does not search for a free
     name.  With a notes master in the package that the presentation part is NOT related to (a notes slide relates it; other
     producers' decks), the call is predicted ill-formed - the point excluded is a state of the real library too (see the
